@@ -16,9 +16,14 @@
 #include "crypto_dh.h"
 #include "crypto_entropy.h"
 #include "aws_readkeys.h"
+#include "insecure_memzero.h"
 
 void * __real_malloc(size_t);
 void __real_free(void *);
+
+/* the block holding the strdup()ed secret (see __wrap_strdup below) */
+static const uint8_t * cur_secret; static size_t cur_secret_len;
+static void * secret_block;
 
 /* ---- tracked blocks (allocated by library code through malloc) ---- */
 #define NTRACK 4096
@@ -102,6 +107,14 @@ __wrap_free(void * p)
 	int i;
 	size_t k, n;
 
+	if (p != NULL && watching && p == secret_block) {
+		/* every byte of the secret's copy must be gone, not only whole 8-byte windows */
+		for (k = 0; k < cur_secret_len; k++)
+			if (((uint8_t *)p)[k] != 0) break;
+		if (k < cur_secret_len)
+			complain(" SECRET-COPY-NOT-ZERO@%ld/%ld", (long)k, (long)cur_secret_len);
+		secret_block = NULL;
+	}
 	if (p != NULL && watching) {
 		for (i = 0; i < NTRACK; i++)
 			if (track[i].p == p) break;
@@ -129,6 +142,19 @@ __wrap_free(void * p)
 		}
 	}
 	__real_free(p);
+}
+
+/* ---- the block holding the strdup()ed secret: must be zero over the whole secret when freed ---- */
+char * __real_strdup(const char *);
+char *
+__wrap_strdup(const char * s)
+{
+	char * p = __real_strdup(s);
+
+	if (watching && p != NULL && cur_secret != NULL && strlen(s) == cur_secret_len &&
+	    memcmp(s, cur_secret, cur_secret_len) == 0)
+		secret_block = p;
+	return (p);
 }
 
 /* ---- OpenSSL allocator ---- */
@@ -363,9 +389,11 @@ main(void)
 			fd = mkstemp(tmpl);
 			if (fd < 0 || write(fd, fc, flen) != (ssize_t)flen) { printf("harness-io-error"); HC_END(); continue; }
 			close(fd);
+			cur_secret = sec; cur_secret_len = slen; secret_block = NULL;
 			watching = 1; expect_zero = 0;
 			rc = aws_readkeys(tmpl, &id, &ks);
 			watching = 0;
+			cur_secret = NULL;
 			unlink(tmpl);
 			if (rc == 0) {
 				/* success: the caller owns the strings */
@@ -373,6 +401,20 @@ main(void)
 			}
 			printf("clean%s | rc=%d checked=%d", verdict, rc, nfrees_checked);
 			h_free(sec); h_free(fc);
+		} else if (hc_is("memzero", 2)) {
+			/* insecure_memzero(buf + align, len) zeroes exactly those bytes, for every alignment and length */
+			size_t al = strtoull(hc_tok[1], NULL, 10), ln = strtoull(hc_tok[2], NULL, 10), k, bad = 0;
+			uint8_t * raw = __real_malloc(al + ln + 32 + 16), * base;
+
+			base = (uint8_t *)(((uintptr_t)raw + 15) & ~(uintptr_t)15);	/* 16-aligned */
+			memset(base, 0xaa, al + ln + 16);
+			insecure_memzero(base + al, ln);
+			for (k = 0; k < al + ln + 16; k++) {
+				uint8_t want = (k >= al && k < al + ln) ? 0 : 0xaa;
+				if (base[k] != want) { bad = k + 1; break; }
+			}
+			if (bad) printf("memzero WRONG@%zu", bad - 1); else printf("memzero exact");
+			__real_free(raw);
 		} else {
 			printf("bad-op");
 		}
